@@ -346,7 +346,7 @@ Qed.
 Lemma close_streams_ok : forall sids st c st',
   close_streams st sids = (c, st') -> store_ok st -> store_ok st'.
 Proof.
-  induction sids as [|sid r IH]; intros st c st' H Hst; simpl in H.
+  induction sids as [|sid r IH]; intros st c st' H Hst; cbn [close_streams] in H.
   - inversion H; subst; auto.
   - destruct (nth_error (streams st) sid) as [s|] eqn:Es; [|inversion H; subst; auto].
     destruct (stream_close_recv s) as [c0 s0] eqn:Ec.
@@ -360,7 +360,7 @@ Qed.
 Lemma close_rd_ok : forall fuel st t c st',
   close_rd fuel st t = (c, st') -> store_ok st -> store_ok st'.
 Proof.
-  induction fuel as [|fuel IH]; intros st t c st' H Hst; simpl in H.
+  induction fuel as [|fuel IH]; intros st t c st' H Hst; cbn [close_rd] in H.
   - inversion H; subst; auto.
   - destruct t as [rest | sid | sts chosen | f src cin cout | p i].
     + inversion H; subst; auto.
